@@ -236,3 +236,36 @@ package admin
 //@   ensures [C15:ok_response_means_the_whole_batch_committed_in_one_call] implements(s.Store, "queue.BatchEnqueuer") && respStatus == 200 ==> batchCommitted == old(batchCommitted) + 1 && batchCalls == old(batchCalls) + 1 && lastBatchLen == len(local(items)) && lastBatchErr == nil
 //@   ensures [C15:always_answers] respStatus != 0
 //@   ensures [C15:item_errors_name_an_item_of_the_batch] respStatus != 200 && publishErrIndex >= 0 && len(local(items)) > 0 ==> publishErrIndex < len(local(items))
+
+// -- endpoint-scoped publish --
+//@ spec
+//@ ufunc endpointRoute(application string, endpointName string) string
+//@ pred scopedItemOK(env queue.Envelope, item messagesPublishItem, route string, targets []string) := itemShapeOK(env, item.ID, route, env.Target) && env.ID in acceptedIDs && trim(item.Route) == "" && trim(item.Application) == "" && trim(item.EndpointName) == "" && exists j int :: 0 <= j && j < len(targets) && (env.Target == trim(targets[j]) || (len(targets) == 1 && env.Target == targets[0]))
+
+//@ func (*Server).resolveManagedEndpointPublishScope
+//@   trusted
+//@   ensures result5 ==> result0 == endpointRoute(application, endpointName)
+//@   ensures !result5 && result3 != "" ==> result2 == 503
+
+//@ func publishItemHasSelectorHints
+//@   ensures result <==> trim(item.Route) != "" || trim(item.Application) != "" || trim(item.EndpointName) != ""
+
+//@ func validateScopedManagedSelector
+//@   ensures [C15:selector_must_match_the_scope] result ==> (trim(routeHint) == "" || trim(routeHint) == route) && ((trim(applicationHint) == "") <==> (trim(endpointHint) == "")) && (trim(applicationHint) != "" ==> trim(applicationHint) == application && trim(endpointHint) == endpointName)
+
+//@ func (*Server).handleApplicationEndpointPublish
+//@   requires s != nil && r != nil && r.Header != nil && w != nil && respStatus == 0
+//@   modifies *
+//@   preserves Server.*
+//@   loop 1 invariant [no_response_and_no_enqueue_during_preflight] respStatus == 0 && batchCalls == old(batchCalls) && batchCommitted == old(batchCommitted) && enqueues == old(enqueues) && storeIDs == old(storeIDs)
+//@   loop 1 invariant [one_envelope_per_item] rangeindex < len(items) && len(prepared) == rangeindex + 1
+//@   loop 1 invariant [request_headers_untouched] headerGet(r.Header, "X-Hookaido-Audit-Reason") == old(headerGet(r.Header, "X-Hookaido-Audit-Reason"))
+//@   loop 1 invariant [scope_policy_checked] route in managedPolicyOK
+//@   loop 1 invariant [every_envelope_preflighted] forall k int :: 0 <= k && k < len(prepared) ==> scopedItemOK(prepared[k], items[k], route, targets) && enqueueable(prepared[k])
+//@   calls queue.BatchEnqueuer.EnqueueBatch requires [C15:batch_is_every_item_and_each_passed_every_gate] respStatus == 0 && len(callee_items) == len(items) && forall k int :: 0 <= k && k < len(callee_items) ==> scopedItemOK(callee_items[k], items[k], route, targets)
+//@   calls queue.BatchEnqueuer.EnqueueBatch requires [C15:no_batch_id_is_already_in_the_queue] forall k int :: 0 <= k && k < len(callee_items) ==> !(callee_items[k].ID in storeIDs)
+//@   calls queue.BatchEnqueuer.EnqueueBatch requires [C15:scoped_path_enabled_policy_checked_and_audited] s.PublishScopedManagedEnabled && route == endpointRoute(application, endpointName) && route in managedPolicyOK && len(targets) > 0 && (s.RequireManagementAuditReason ==> trim(headerGet(r.Header, "X-Hookaido-Audit-Reason")) != "")
+//@   ensures [C15:error_response_means_nothing_enqueued] implements(s.Store, "queue.BatchEnqueuer") && respStatus != 200 ==> batchCommitted == old(batchCommitted) && enqueues == old(enqueues) && storeIDs == old(storeIDs)
+//@   ensures [C15:ok_response_means_the_whole_batch_committed_in_one_call] implements(s.Store, "queue.BatchEnqueuer") && respStatus == 200 ==> batchCommitted == old(batchCommitted) + 1 && batchCalls == old(batchCalls) + 1 && lastBatchLen == len(local(items)) && lastBatchErr == nil
+//@   ensures [C15:always_answers] respStatus != 0
+//@   ensures [C15:item_errors_name_an_item_of_the_batch] respStatus != 200 && publishErrIndex >= 0 && len(local(items)) > 0 ==> publishErrIndex < len(local(items))
